@@ -303,6 +303,16 @@ func (o *c19Oracle) Probe(pt string, zeit, subd int, wdt float64, g *G, w *herme
 			}
 			o.widen(g.TBASE)
 			o.have = true
+		} else {
+			// the layer temperatures the model carries into the day (what yesterday's output step left behind)
+			for i := 0; i <= g.N; i++ {
+				if v := g.TD[i]; !finite(v) || v < o.lo-tol(v, o.lo) || v > o.hi+tol(v, o.hi) {
+					o.violate("envelope", "layer-temperature-outside-boundary-envelope", zeit,
+						fmt.Sprintf("at the start of the day layer %d stands at %.9g degC, outside the envelope [%.9g, %.9g] of all surface and lower-boundary temperatures imposed so far", i, v, o.lo, o.hi),
+						map[string]float64{"layer": float64(i), "t": v, "lo": o.lo, "hi": o.hi})
+					break
+				}
+			}
 		}
 	case "water.pre":
 		if subd != 1 {
@@ -458,6 +468,7 @@ func init() {
 		Gen: func(r *RNG, idx int, tier string) *Scenario {
 			p := wetDryProfile()
 			p.MaxYears = 5
+			p.ForceDaily = idx%3 != 1 // a third of the worlds with other output intervals (0, 2, 3, 7, 10 days)
 			w := GenWorld(r.Sub("world", 0), p, paramTables)
 			// measured bulk densities 0.8..1.9 (csv soil files carry them) and humus up to 10 %
 			if idx%2 == 0 {
